@@ -122,6 +122,19 @@ theorem negBasic_spec (p : Pt F) (hz : p.z ≠ 0) :
   simp only [negBasic, isInfty, fieldOps, decide_eq_true_eq, if_neg hz]
   exact ⟨trivial, trivial, trivial, trivial⟩
 
+/-- eb_dbl_basic: the identity and the point of order two (x = 0) double to the identity; otherwise the tangent formulas run -/
+theorem dblBasic_order_two (cv : CurveB F) (p : Pt F) (hx : p.x = 0) :
+    isInfty (fieldOps slv srt trc) (dblBasic (fieldOps slv srt trc) cv p) = true := by
+  simp [dblBasic, isInfty, fieldOps, infty, hx]
+
+theorem dblBasic_spec (cv : CurveB F) (hcv : OptOk cv) (p : Pt F) (hz : p.z ≠ 0) (hx : p.x ≠ 0) :
+    let r := dblBasic (fieldOps slv srt trc) cv p
+    r.coord = .basic ∧ r.z = p.z ∧ r.x = tangX cv.a p.x p.y ∧ r.y = tangY cv.a p.x p.y := by
+  have h : dblBasic (fieldOps slv srt trc) cv p = dblBasicImp (fieldOps slv srt trc) cv p := by
+    simp [dblBasic, isInfty, fieldOps, hz, hx]
+  rw [h]
+  exact dblBasicImp_spec slv srt trc cv hcv p hx
+
 /-! ### López-Dahab projective formulas -/
 
 /-- doubling, x ≠ 0 -/
@@ -446,21 +459,26 @@ theorem addProjc_infty_right (cv : CurveB F) (p q : Pt F) (hp : p.z ≠ 0) (hq :
 
 /-! ### normalisation, Frobenius -/
 
-theorem norm_spec (rz : F) (p : Pt F) (hz : p.z ≠ 0) (hb : p.coord = .basic → p.z = 1) :
-    let r := norm (fieldOps slv srt trc) rz p
-    r.coord = .basic ∧ r.x = affX p ∧ r.y = affY p ∧ (p.coord ≠ .halve → r.z = 1) := by
+theorem norm_spec (p : Pt F) (hz : p.z ≠ 0) (hb : p.coord = .basic → p.z = 1) :
+    let r := norm (fieldOps slv srt trc) p
+    r.coord = .basic ∧ r.x = affX p ∧ r.y = affY p ∧ r.z = 1 := by
   obtain ⟨x, y, z, c⟩ := p
   simp only at hz hb
   cases c
   · simp only [forall_const] at hb
     simp only [norm, isInfty, fieldOps, decide_eq_true_eq, if_neg hz, affX, affY]
-    exact ⟨trivial, trivial, trivial, fun _ => hb⟩
+    exact ⟨trivial, trivial, trivial, hb⟩
   · simp only [norm, isInfty, fieldOps, decide_eq_true_eq, if_neg hz, affX, affY]
-    refine ⟨trivial, ?_, ?_, fun _ => trivial⟩
+    refine ⟨trivial, ?_, ?_, trivial⟩
     · field_simp
     · field_simp
   · simp only [norm, isInfty, fieldOps, decide_eq_true_eq, if_neg hz, affX, affY]
-    exact ⟨trivial, trivial, trivial, fun h => absurd rfl h⟩
+    exact ⟨trivial, trivial, trivial, trivial⟩
+
+/-- the identity normalises to the identity -/
+theorem norm_infty (p : Pt F) (hz : p.z = 0) :
+    isInfty (fieldOps slv srt trc) (norm (fieldOps slv srt trc) p) = true := by
+  simp [norm, isInfty, fieldOps, infty, hz]
 
 /-- the Frobenius map squares the affine coordinates -/
 theorem frb_spec (p : Pt F) (hp : Wf p) :
@@ -494,18 +512,21 @@ theorem tangL_lambda (u l : F) (hu : u ≠ 0) : tangL u ((u + l) * u) = l := by
 
 /-- P = (x, y) presented affine or in λ-representation; λ̂ = slv(x + a) solves λ̂² + λ̂ = x + a and srt is a square root:
     the result Q = (u, λ_Q) (λ-representation) satisfies 2Q = P, whichever branch of the trace test is taken -/
-theorem hlv_spec (cv : CurveB F) (hcv : OptOk cv) (p : Pt F) (hc : p.coord ≠ .projc)
+theorem hlv_spec (cv : CurveB F) (hcv : OptOk cv) (p : Pt F) (hz : p.z ≠ 0) (hc : p.coord ≠ .projc)
     (hslv : slv (affX p + cv.a) ^ 2 + slv (affX p + cv.a) = affX p + cv.a)
     (hsrt : ∀ t, srt t ^ 2 = t) :
     let r := hlv (fieldOps slv srt trc) cv p
     r.coord = .halve ∧ r.z = 1 ∧
       (affX r ≠ 0 → tangX cv.a (affX r) (affY r) = affX p ∧ tangY cv.a (affX r) (affY r) = affY p) := by
+  have hh : hlv (fieldOps slv srt trc) cv p = hlvImp (fieldOps slv srt trc) cv p := by
+    simp [hlv, isInfty, fieldOps, hz]
+  rw [hh]
   obtain ⟨x, y, z, c⟩ := p
-  simp only at hc
+  simp only at hc hz
   cases c
   · -- affine operand
     simp only [affX] at hslv
-    simp only [hlv, addA_eq slv srt trc cv hcv]
+    simp only [hlvImp, addA_eq slv srt trc cv hcv]
     generalize hl : slv (x + cv.a) = l at hslv
     simp only [fieldOps, if_true, affY, hl]
     cases trc (l * x + y)
@@ -524,7 +545,7 @@ theorem hlv_spec (cv : CurveB F) (hcv : OptOk cv) (p : Pt F) (hc : p.coord ≠ .
   · exact absurd rfl hc
   · -- λ-representation
     simp only [affX] at hslv
-    simp only [hlv, addA_eq slv srt trc cv hcv]
+    simp only [hlvImp, addA_eq slv srt trc cv hcv]
     generalize hl : slv (x + cv.a) = l at hslv
     simp only [fieldOps, reduceCtorEq, if_false, affY, hl]
     cases trc ((l + y + x) * x)
@@ -540,6 +561,11 @@ theorem hlv_spec (cv : CurveB F) (hcv : OptOk cv) (p : Pt F) (hc : p.coord ≠ .
       constructor
       · linear_combination (norm := char2_norm) hslv
       · linear_combination (norm := char2_norm) l * hslv
+
+/-- eb_hlv of the identity is the identity -/
+theorem hlv_infty (cv : CurveB F) (p : Pt F) (hz : p.z = 0) :
+    isInfty (fieldOps slv srt trc) (hlv (fieldOps slv srt trc) cv p) = true := by
+  simp [hlv, isInfty, fieldOps, infty, hz]
 
 /-- the doubling formulas keep a point on the curve (x ≠ 0) -/
 theorem tang_on_curve (a b x y : F) (hx : x ≠ 0) (h : y ^ 2 + x * y = x ^ 3 + a * x ^ 2 + b) :
